@@ -1431,6 +1431,7 @@ class ktensor:
             self.weights[:] = 1.0
         elif weight_factor is not None and weight_factor in range(self.ndims):
             # single factor
+            weight_factor = int(weight_factor)
             self.factor_matrices[weight_factor] = self.factor_matrices[
                 weight_factor
             ] @ np.diag(self.weights)
